@@ -287,4 +287,12 @@ def r04_4_list_discipline(repo: Repo, rep: Report):
     rep.check("R04.4", ok, ms, rf, "PathContext.refine: query=refine(self.query), is_refined=True", "refined context must carry the refined query and the flag")
 
 
-RULES = [r04_1_prefix_agreement, r04_2_refine_exact, r04_3_model_syntaxes, r04_4_list_discipline]
+def r04_5_shared(repo: Repo, rep: Report):
+    """a model is only as good as the query it satisfies: the dumped (and the refined) query must carry the path's
+    constraints, including the named assertions under --cache-solver (shared with C11)"""
+    from hsa.rules.c11 import r11_3_dump_writer_reader
+
+    r11_3_dump_writer_reader(repo, rep)
+
+
+RULES = [r04_5_shared, r04_1_prefix_agreement, r04_2_refine_exact, r04_3_model_syntaxes, r04_4_list_discipline]
